@@ -9,3 +9,4 @@ INVARIANT CopyDisjointOK
 INVARIANT HistOK
 INVARIANT PureOK
 INVARIANT AfterOK
+INVARIANT FactoryOK
